@@ -284,6 +284,18 @@ func (r *Report) Finish(verifDir string, known *KnownFile, level, checkerCmd str
 	if len(samples) == 0 {
 		samples = append(samples, "no obligations generated")
 	}
+	if r.Assume == nil {
+		r.Assume = []string{}
+	}
+	if r.Trusted == nil {
+		r.Trusted = []string{}
+	}
+	if r.Notes == nil {
+		r.Notes = []string{}
+	}
+	if r.Controls == nil {
+		r.Controls = []string{}
+	}
 	ev := map[string]any{
 		"property_id": r.Property,
 		"tier":        r.Tier,
